@@ -4,6 +4,7 @@
   `Body.cleanupBody`) computes the model's `Dev.cleanupWith` over the tracked keys and identifiers.
 -/
 import HidiProofs.Bodies
+set_option linter.unusedSimpArgs false
 namespace Hidi.BodiesTie
 open Hidi Hidi.GoLite Hidi.Gen
 
